@@ -176,8 +176,16 @@ def run(ctx):
                 elif op == sp.LITERAL:
                     cs.add(arg)
                 elif op == sp.CATEGORY and arg == sp.CATEGORY_DIGIT:
-                    cs |= set(range(ord("0"), ord("9") + 1))
+                    # `\d` in a str pattern without re.ASCII is every Unicode decimal digit (general category Nd)
+                    import unicodedata
+                    cs |= {c for c in range(0x110000) if unicodedata.category(chr(c)) == "Nd"}
             shape_ok = {ord(c) for c in "0123456789ABCDEF"} <= cs
+            extra_digits = sorted(cs - {ord(c) for c in "0123456789ABCDEF"})
+            r.check("R20.3", not extra_digits, "reader-class-is-the-writers-alphabet", "%s:%d" % (REL, rline),
+                    "replacementRegexp %r also matches %d characters the escape writer never produces (%s ...): a legal XML name such as "
+                    "'U' + five Arabic-Indic digits is not an escape, is left alone by toXmlName and is turned into another name by "
+                    "fromXmlName ('U\u0660\u0660\u0660\u0664\u0661' -> 'A')" % (rpat, len(extra_digits), fmt_ranges(extra_digits, 3)),
+                    detail={"extra": len(extra_digits)})
     r.check("R20.3", ok_fmt and shape_ok, "escape-matches-reader-pattern", "%s:%d" % (REL, rline),
             "escape format %r is not matched by replacementRegexp %r with the same fixed width" % (fmt, rpat),
             detail={"format": fmt, "pattern": rpat})
@@ -314,6 +322,7 @@ def mutants():
         T("regex-range-edit", REL, "nonXmlNameBMPRegexp = re.compile('[\\x00-,/:-@", "nonXmlNameBMPRegexp = re.compile('[\\x00-,/;-@", "R20.1"),
         T("first-regex-edit", REL, "nonXmlNameFirstBMPRegexp = re.compile('[\\x00-@", "nonXmlNameFirstBMPRegexp = re.compile('[\\x00-?", "R20.1"),
         T("pubid-percent", REL, "0-9\\\\-'()+,./:=?;!*#@$_%]", "0-9\\\\-'()+,./:=?;!*#@$_]", "R20.2"),
+        T("reader-unicode-digits", REL, "    replacementRegexp = re.compile(r\"U[0-9A-F]{5,5}\")", "    replacementRegexp = re.compile(r\"U[\\dA-F]{5,5}\")", "R20.3"),
         T("escape-lowercase", REL, "        replacement = \"U%05X\" % ord(char)", "        replacement = \"U%05x\" % ord(char)", "R20.3"),
         T("escape-width", REL, "        replacement = \"U%05X\" % ord(char)", "        replacement = \"U%04X\" % ord(char)", "R20.3"),
         T("unescape-offset", REL, "        return chr(int(charcode[1:], 16))", "        return chr(int(charcode[2:], 16))", "R20.3"),
